@@ -390,6 +390,13 @@ Proof.
   intros p H. exact (prog_ok_refines V_FULL ENUM_FUEL p (proj1 (forallb_forall (prog_ok_f V_FULL ENUM_FUEL) enum_full) enum_full_ok p H)).
 Qed.
 
+Lemma lifo_once_full : forall p, In p enum_full ->
+  exists out s, impl_fun V_FULL ENUM_FUEL p 0 0 wrapper j_init = Some (out, s) /\
+    forall id, (id < j_next s)%nat -> pend id (j_trace s) = Some [].
+Proof.
+  intros p H. exact (prog_ok_all_run V_FULL ENUM_FUEL p (proj1 (forallb_forall (prog_ok_f V_FULL ENUM_FUEL) enum_full) enum_full_ok p H)).
+Qed.
+
 (* an unrecovered panic raised by a deferred call while Goexit unwinds is swallowed by the catch
    clause of $goroutine (finding panic-during-goexit-swallowed):
      go func(){ defer func(){ panic(2) }(); runtime.Goexit() }() *)
@@ -413,8 +420,26 @@ Lemma witnesses_repaired :
   obs (impl_run V_GOEXIT 100 wit_goexit_fixed) = obs (spec_run 100 wit_goexit_fixed) /\
   obs (impl_run V_REPAIRED 100 wit_replaced) = obs (spec_run 100 wit_replaced) /\
   obs (impl_run V_REPAIRED 100 wit_skipped) = obs (spec_run 100 wit_skipped) /\
+  obs (impl_run V_FULL 100 wit_goexit) = obs (spec_run 100 wit_goexit) /\
+  obs (impl_run V_FULL 100 wit_goexit_fixed) = obs (spec_run 100 wit_goexit_fixed) /\
+  obs (impl_run V_FULL 100 wit_replaced) = obs (spec_run 100 wit_replaced) /\
+  obs (impl_run V_FULL 100 wit_skipped) = obs (spec_run 100 wit_skipped) /\
+  obs (impl_run V_FULL 100 wit_goexit_panic) = obs (spec_run 100 wit_goexit_panic) /\
+  obs (spec_run 100 wit_goexit_panic) = Some ([], FFatal (PInt 2)) /\
   obs (spec_run 100 wit_skipped) = Some ([ERec (Some (PInt 2)); ERec None; ETrace 0; ETraceX 0 0], FNormal).
 Proof. repeat split; vm_compute; reflexivity. Qed.
+Lemma witnesses_full :
+  obs (impl_run V_FULL 100 wit_goexit) = obs (spec_run 100 wit_goexit) /\
+  obs (impl_run V_FULL 100 wit_goexit_fixed) = obs (spec_run 100 wit_goexit_fixed) /\
+  obs (impl_run V_FULL 100 wit_replaced) = obs (spec_run 100 wit_replaced) /\
+  obs (impl_run V_FULL 100 wit_skipped) = obs (spec_run 100 wit_skipped) /\
+  obs (impl_run V_FULL 100 wit_goexit_panic) = obs (spec_run 100 wit_goexit_panic) /\
+  obs (spec_run 100 wit_goexit_panic) = Some ([], FFatal (PInt 2)) /\
+  obs (spec_run 100 wit_skipped) = Some ([ERec (Some (PInt 2)); ERec None; ETrace 0; ETraceX 0 0], FNormal).
+Proof.
+  destruct witnesses_repaired as [_ [_ [_ [_ [H1 [H2 [H3 [H4 [H5 [H6 H7]]]]]]]]]].
+  repeat split; assumption.
+Qed.
 (* the tree with the Goexit repair only still has the replaced-panic defect *)
 Lemma wit_replaced_goexit_variant :
   obs (impl_run V_GOEXIT 100 wit_replaced) = Some ([ERec (Some (PInt 2))], FFatal (PInt 1)).
